@@ -661,13 +661,15 @@ def lens_campaign(ctx, ok, n):
             report(ctx, "panic-in-expected-len", f"app markers {h['app']}: {i}", replay, f"panic:{m.group(1)}")
             continue
         icc, exif, xmp = expected_lens(h)
-        if app_underflows(h):
+        # a Huffman code with a code of length 0 or without any value is rejected by the header parser
+        huff_bad = any(c[0] != 0 or sum(c) == 0 for (_a, _i, _l, c, _v) in h["huff"])
+        if app_underflows(h) or huff_bad:
             want = "err:jbr-Bitstream"
         else:
             want = (f"ok app={','.join(f'{t}:{x}' for t, x in h['app']) or '-'} data={expected_data_len(h)} "
                     f"icc={icc} exif={exif} xmp={xmp}")
         if i != want:
-            if app_underflows(h) and i.startswith("ok "):
+            if app_underflows(h) and not huff_bad and i.startswith("ok "):
                 # accepted without underflow (only the first Exif/XMP marker is looked at): no defect of the code,
                 # but not what the modelled (repaired) parser does
                 ctx.failed_obligations.append(f"correspondence AppMarker::parse vs appMarkerOk differs on {h['app']}: impl {i!r}")
